@@ -9,6 +9,7 @@ import (
 
 	"github.com/gobuffalo/pop/v6"
 	"github.com/gofrs/uuid"
+	"github.com/ory/herodot"
 	"github.com/ory/x/popx"
 	"github.com/pkg/errors"
 
@@ -103,7 +104,7 @@ func (p *internalPagination) parsePageToken(t string) error {
 
 	i, err := uuid.FromString(t)
 	if err != nil {
-		return errors.WithStack(persistence.ErrMalformedPageToken)
+		return errors.WithStack(herodot.ErrBadRequest.WithWrap(persistence.ErrMalformedPageToken).WithError(persistence.ErrMalformedPageToken.Error()))
 	}
 
 	p.LastID = i
